@@ -530,8 +530,17 @@ type ReplayFile struct {
 	History      []interface{}    `json:"history,omitempty"`
 }
 
+// outRoot is where evidence and replay files are written: /verif, or VERIF_OUT for sensitivity
+// experiments on scratch copies of the repository (so they never touch the committed evidence).
+func outRoot() string {
+	if v := os.Getenv("VERIF_OUT"); v != "" {
+		return v
+	}
+	return verifRoot
+}
+
 func replayDir(id string) string {
-	d := filepath.Join(verifRoot, "replays", id)
+	d := filepath.Join(outRoot(), "replays", id)
 	os.MkdirAll(d, 0777)
 	return d
 }
